@@ -48,16 +48,16 @@ type entry struct {
 }
 
 type seqOut struct {
-	stage    string // "" = completed; else the step that rejected the request
-	msg      string
-	norm1    string // printed after the first normalisation
-	normDoc  string // S-expression after the second normalisation
-	normPr   string
-	normVars []byte
-	mapDoc   string
-	mapPr    string
-	mapping  map[string]string // new name -> old name
-	mapVars  *x.J
+	stage      string // "" = completed; else the step that rejected the request
+	msg        string
+	norm1      string // printed after the first normalisation
+	normDoc    string // S-expression after the second normalisation
+	normPr     string
+	normVars   []byte
+	mapDoc     string
+	mapPr      string
+	mapping    map[string]string // new name -> old name
+	mapVars    *x.J
 	validFinal bool
 	finalMsg   string
 }
